@@ -35,6 +35,9 @@ RULE = (
     '>=2 cycle points and >=3 jobs launched; distinct by (spec, outcomes, '
     'schedule).')
 ASSUMPTIONS = [
+    'Schedule domain: a job\'s final message (succeeded/failed) is never '
+    'delivered before the jobs-submit command that launched it has returned '
+    '("started" may overtake the submit callback).',
     'Suicide triggers, xtriggers, flow=none, manual commands, retries and '
     'unparenthesised and/or mixes are outside this profile.',
     'Atoms whose upstream instance is off-sequence are repaired away by the '
